@@ -1,1 +1,462 @@
-//! c19 harnesses
+//! C19 — names are accepted exactly when they satisfy the documented rules, round-trip unchanged,
+//! and stay valid under every editing operation.
+//!
+//! Specification predicates below are written from the documentation of the `semantic_string!`
+//! types (not by calling the implementation's own predicates): the string layer only supports
+//! code points < 128 and no NUL, each type forbids a set of bytes and a set of contents.
+
+use crate::common::*;
+use iceoryx2_bb_container::semantic_string::*;
+use iceoryx2_bb_system_types::base64url::Base64Url;
+use iceoryx2_bb_system_types::file_name::{FileName, RestrictedFileName};
+use iceoryx2_bb_system_types::file_path::FilePath;
+use iceoryx2_bb_system_types::group_name::GroupName;
+use iceoryx2_bb_system_types::path::Path;
+use iceoryx2_bb_system_types::user_name::UserName;
+
+const MAXB: usize = 6;
+
+#[derive(Clone, Copy)]
+struct Bytes {
+    b: [u8; MAXB],
+    n: usize,
+}
+
+impl Bytes {
+    fn any(maxn: usize) -> Self {
+        let b: [u8; MAXB] = kani::any();
+        let n: usize = kani::any();
+        kani::assume(n <= maxn);
+        Bytes { b, n }
+    }
+    fn s(&self) -> &[u8] {
+        &self.b[..self.n]
+    }
+    fn eq_slice(&self, o: &[u8]) -> bool {
+        if o.len() != self.n {
+            return false;
+        }
+        let mut i = 0;
+        let mut r = true;
+        while i < MAXB {
+            if i < self.n && o[i] != self.b[i] {
+                r = false;
+            }
+            i += 1;
+        }
+        r
+    }
+    fn insert(&mut self, idx: usize, c: u8) {
+        let mut i = MAXB - 1;
+        while i > 0 {
+            if i > idx && i <= self.n {
+                self.b[i] = self.b[i - 1];
+            }
+            i -= 1;
+        }
+        self.b[idx] = c;
+        self.n += 1;
+    }
+    fn remove(&mut self, idx: usize) -> u8 {
+        let r = self.b[idx];
+        let mut i = 0;
+        while i + 1 < MAXB {
+            if i >= idx && i + 1 < self.n {
+                self.b[i] = self.b[i + 1];
+            }
+            i += 1;
+        }
+        self.n -= 1;
+        r
+    }
+}
+
+// ---- specification predicates --------------------------------------------------------------
+
+fn ascii_no_nul(c: u8) -> bool {
+    c >= 1 && c < 128
+}
+
+fn forbidden_in_file_name(c: u8) -> bool {
+    c <= 31 || c == b'/' || c == b'\\' || c == b'<' || c == b'>' || c == b'"' || c == b'|' || c == b'?' || c == b'*'
+}
+
+fn forbidden_in_path(c: u8) -> bool {
+    c <= 31 || c == b'<' || c == b'>' || c == b'"' || c == b'|' || c == b'?' || c == b'*'
+}
+
+fn all(v: &Bytes, f: fn(u8) -> bool) -> bool {
+    let mut i = 0;
+    let mut r = true;
+    while i < MAXB {
+        if i < v.n && !f(v.b[i]) {
+            r = false;
+        }
+        i += 1;
+    }
+    r
+}
+
+fn is_dot_or_dotdot_or_empty(v: &Bytes) -> bool {
+    v.n == 0 || (v.n == 1 && v.b[0] == b'.') || (v.n == 2 && v.b[0] == b'.' && v.b[1] == b'.')
+}
+
+fn spec_file_name(v: &Bytes) -> bool {
+    all(v, |c| ascii_no_nul(c) && !forbidden_in_file_name(c)) && !is_dot_or_dotdot_or_empty(v)
+}
+
+fn spec_path(v: &Bytes) -> bool {
+    all(v, |c| ascii_no_nul(c) && !forbidden_in_path(c))
+}
+
+fn spec_file_path(v: &Bytes) -> bool {
+    if !all(v, |c| ascii_no_nul(c) && !forbidden_in_path(c)) || is_dot_or_dotdot_or_empty(v) {
+        return false;
+    }
+    let n = v.n;
+    if v.b[n - 1] == b'/' {
+        return false;
+    }
+    if n >= 2 && v.b[n - 2] == b'/' && v.b[n - 1] == b'.' {
+        return false;
+    }
+    if n >= 3 && v.b[n - 3] == b'/' && v.b[n - 2] == b'.' && v.b[n - 1] == b'.' {
+        return false;
+    }
+    true
+}
+
+fn name_char(c: u8) -> bool {
+    (c >= b'a' && c <= b'z') || (c >= b'A' && c <= b'Z') || (c >= b'0' && c <= b'9') || c == b'-' || c == b'_'
+}
+
+fn spec_user_name(v: &Bytes) -> bool {
+    all(v, name_char) && v.n > 0 && !(v.b[0] == b'-' || (v.b[0] >= b'0' && v.b[0] <= b'9'))
+}
+
+fn spec_base64url(v: &Bytes) -> bool {
+    all(v, name_char) && v.n > 0
+}
+
+// ---- generic obligations -------------------------------------------------------------------
+
+/// accept-iff-spec and round trip
+fn check_new<const CAP: usize, S: SemanticString<CAP>>(maxn: usize, spec: fn(&Bytes) -> bool) -> bool {
+    let v = Bytes::any(maxn);
+    let r = S::new(v.s());
+    let ok = spec(&v) && v.n <= CAP;
+    assert!(r.is_ok() == ok, "c19: acceptance differs from the documented rules");
+    match r {
+        Ok(s) => {
+            assert!(s.len() == v.n, "c19: accepted name does not round-trip (length)");
+            assert!(v.eq_slice(s.as_bytes()), "c19: accepted name does not round-trip (bytes)");
+            true
+        }
+        Err(e) => {
+            if v.n > CAP && all(&v, ascii_no_nul) {
+                assert!(e == SemanticStringError::ExceedsMaximumLength);
+            }
+            false
+        }
+    }
+}
+
+/// one symbolic editing operation on an arbitrary accepted value: either refused without change,
+/// or the result equals the model result and is itself acceptable
+fn check_edit<const CAP: usize, S: SemanticString<CAP>, const G: u8>(maxn: usize, spec: fn(&Bytes) -> bool) {
+    let v = Bytes::any(maxn);
+    let mut s = match S::new(v.s()) {
+        Ok(s) => s,
+        Err(_) => return,
+    };
+    let mut m = v;
+    // operation group G (compile time) keeps each solver query small:
+    // 0: insert/push   1: remove, pop, truncate   2: remove_range, strip_prefix, strip_suffix   3: retain
+    let sel: u8 = kani::any();
+    let op: u8 = match G {
+        0 => 0,
+        1 => {
+            if sel == 0 { 1 } else if sel == 1 { 2 } else { 3 }
+        }
+        2 => {
+            if sel == 0 { 4 } else if sel == 1 { 5 } else { 6 }
+        }
+        _ => 7,
+    };
+    let c: u8 = kani::any();
+    let idx: usize = kani::any();
+    kani::assume(idx <= MAXB);
+    let len: usize = kani::any();
+    kani::assume(len <= MAXB);
+    let mut changed = false;
+    match op {
+        0 if G == 0 => {
+            // insert (push is insert at len)
+            kani::assume(idx <= m.n && m.n < MAXB);
+            let r = s.insert(idx, c);
+            let mut t = m;
+            t.insert(idx, c);
+            if spec(&t) && t.n <= CAP {
+                assert!(r.is_ok(), "c19: valid insert refused");
+                m = t;
+                changed = true;
+            } else {
+                assert!(r.is_err(), "c19: insert produced an invalid name");
+            }
+        }
+        1 if G == 1 => {
+            // remove
+            let r = s.remove(idx);
+            if idx < m.n {
+                let mut t = m;
+                let removed = t.remove(idx);
+                if spec(&t) {
+                    assert!(r == Ok(Some(removed)), "c19: valid remove refused or returned the wrong byte");
+                    m = t;
+                    changed = true;
+                } else {
+                    assert!(r.is_err(), "c19: remove produced an invalid name");
+                }
+            } else {
+                assert!(r == Ok(None), "c19: remove out of bounds did not return None");
+            }
+        }
+        2 if G == 1 => {
+            // pop
+            let r = s.pop();
+            let mut t = m;
+            if m.n == 0 {
+                assert!(r == Ok(None));
+                return;
+            }
+            let removed = t.remove(t.n - 1);
+            if spec(&t) {
+                assert!(r == Ok(Some(removed)));
+                m = t;
+                changed = true;
+            } else {
+                assert!(r.is_err(), "c19: pop produced an invalid name");
+            }
+        }
+        3 if G == 1 => {
+            // truncate
+            let r = s.truncate(idx);
+            if idx < m.n {
+                let mut t = m;
+                t.n = idx;
+                if spec(&t) {
+                    assert!(r.is_ok());
+                    m = t;
+                    changed = true;
+                } else {
+                    assert!(r.is_err(), "c19: truncate produced an invalid name");
+                }
+            } else {
+                assert!(r.is_ok());
+            }
+        }
+        4 if G == 2 => {
+            // remove_range
+            kani::assume(idx + len <= m.n);
+            let r = s.remove_range(idx, len);
+            let mut t = m;
+            let mut k = 0;
+            while k < MAXB {
+                if k < len {
+                    t.remove(idx);
+                }
+                k += 1;
+            }
+            if spec(&t) {
+                assert!(r.is_ok());
+                m = t;
+                changed = len > 0;
+            } else {
+                assert!(r.is_err(), "c19: remove_range produced an invalid name");
+            }
+        }
+        5 if G == 2 => {
+            // strip_prefix with a one byte prefix
+            let r = s.strip_prefix(&[c]);
+            if m.n > 0 && m.b[0] == c {
+                let mut t = m;
+                t.remove(0);
+                if spec(&t) {
+                    assert!(r == Ok(true));
+                    m = t;
+                    changed = true;
+                } else {
+                    assert!(r.is_err(), "c19: strip_prefix produced an invalid name");
+                }
+            } else {
+                assert!(r == Ok(false));
+            }
+        }
+        6 if G == 2 => {
+            // strip_suffix with a one byte suffix
+            let r = s.strip_suffix(&[c]);
+            if m.n > 0 && m.b[m.n - 1] == c {
+                let mut t = m;
+                t.n -= 1;
+                if spec(&t) {
+                    assert!(r == Ok(true));
+                    m = t;
+                    changed = true;
+                } else {
+                    assert!(r.is_err(), "c19: strip_suffix produced an invalid name");
+                }
+            } else {
+                assert!(r == Ok(false));
+            }
+        }
+        _ if G != 3 => {}
+        _ => {
+            // retain: removes every byte equal to c
+            let r = s.retain(|x| x == c);
+            let mut t = m;
+            let mut k = MAXB;
+            while k > 0 {
+                k -= 1;
+                if k < t.n && t.b[k] == c {
+                    t.remove(k);
+                }
+            }
+            if spec(&t) {
+                assert!(r.is_ok());
+                changed = t.n != m.n;
+                m = t;
+            } else {
+                assert!(r.is_err(), "c19: retain produced an invalid name");
+            }
+        }
+    }
+    // whatever happened: the value is what the model says and is acceptable
+    assert!(s.len() == m.n, "c19: edited name differs from the model (length)");
+    assert!(m.eq_slice(s.as_bytes()), "c19: edited name differs from the model (bytes)");
+    assert!(spec(&m), "c19: an accepted name became invalid");
+    kani::cover!(changed, "an edit changed the name");
+    kani::cover!(!changed, "an edit was refused or had no effect");
+}
+
+macro_rules! c19_new {
+    ($new_q:ident, $new_t:ident, $cap:expr, $ty:ty, $spec:path) => {
+        proof!(8, fn $new_q() {
+            let acc = check_new::<{ $cap }, $ty>(3, $spec);
+            kani::cover!(acc, "accepted");
+            kani::cover!(!acc, "rejected");
+            canaries();
+        });
+        proof!(8, fn $new_t() {
+            let acc = check_new::<{ $cap }, $ty>(4, $spec);
+            kani::cover!(acc, "accepted");
+            kani::cover!(!acc, "rejected");
+            canaries();
+        });
+    };
+}
+
+macro_rules! c19_edit {
+    ($name:ident, $cap:expr, $ty:ty, $spec:path, $g:literal, $maxn:literal) => {
+        proof!(8, fn $name() {
+            check_edit::<{ $cap }, $ty, $g>($maxn, $spec);
+            canaries();
+        });
+    };
+}
+
+c19_new!(c19_file_name_new, c19_file_name_new_4, 255, FileName, spec_file_name);
+c19_new!(c19_path_new, c19_path_new_4, 255, Path, spec_path);
+c19_new!(c19_file_path_new, c19_file_path_new_4, 255, FilePath, spec_file_path);
+c19_new!(c19_user_name_new, c19_user_name_new_4, 255, UserName, spec_user_name);
+c19_new!(c19_group_name_new, c19_group_name_new_4, 31, GroupName, spec_user_name);
+c19_new!(c19_base64url_new, c19_base64url_new_4, 255, Base64Url, spec_base64url);
+c19_new!(c19_restricted_new, c19_restricted_new_4, 2, RestrictedFileName<2>, spec_file_name);
+
+c19_edit!(c19_file_name_edit_g0, 255, FileName, spec_file_name, 0, 2);
+c19_edit!(c19_file_name_edit_g1, 255, FileName, spec_file_name, 1, 2);
+c19_edit!(c19_file_name_edit_g2, 255, FileName, spec_file_name, 2, 2);
+c19_edit!(c19_file_name_edit_g3, 255, FileName, spec_file_name, 3, 2);
+c19_edit!(c19_file_path_edit_g0, 255, FilePath, spec_file_path, 0, 2);
+c19_edit!(c19_file_path_edit_g1, 255, FilePath, spec_file_path, 1, 3);
+c19_edit!(c19_file_path_edit_g2, 255, FilePath, spec_file_path, 2, 3);
+c19_edit!(c19_file_path_edit_g3, 255, FilePath, spec_file_path, 3, 3);
+c19_edit!(c19_path_edit_g0, 255, Path, spec_path, 0, 2);
+c19_edit!(c19_path_edit_g1, 255, Path, spec_path, 1, 2);
+c19_edit!(c19_path_edit_g2, 255, Path, spec_path, 2, 2);
+c19_edit!(c19_path_edit_g3, 255, Path, spec_path, 3, 2);
+c19_edit!(c19_restricted_edit_g0, 2, RestrictedFileName<2>, spec_file_name, 0, 2);
+c19_edit!(c19_restricted_edit_g1, 2, RestrictedFileName<2>, spec_file_name, 1, 2);
+c19_edit!(c19_restricted_edit_g2, 2, RestrictedFileName<2>, spec_file_name, 2, 2);
+c19_edit!(c19_restricted_edit_g3, 2, RestrictedFileName<2>, spec_file_name, 3, 2);
+c19_edit!(c19_user_name_edit_g0, 255, UserName, spec_user_name, 0, 2);
+c19_edit!(c19_user_name_edit_g1, 255, UserName, spec_user_name, 1, 2);
+c19_edit!(c19_base64url_edit_g1, 255, Base64Url, spec_base64url, 1, 2);
+// thorough: longer start values
+c19_edit!(c19_file_name_edit_g0_3, 255, FileName, spec_file_name, 0, 3);
+c19_edit!(c19_file_name_edit_g1_3, 255, FileName, spec_file_name, 1, 3);
+c19_edit!(c19_file_name_edit_g2_3, 255, FileName, spec_file_name, 2, 3);
+c19_edit!(c19_file_name_edit_g3_3, 255, FileName, spec_file_name, 3, 3);
+
+/// find / rfind on a semantic string agree with a model search (one byte needle)
+proof!(8, fn c19_file_name_find_rfind() {
+    let v = Bytes::any(4);
+    let s = match FileName::new(v.s()) {
+        Ok(s) => s,
+        Err(_) => return,
+    };
+    let c: u8 = kani::any();
+    let mut first: Option<usize> = None;
+    let mut last: Option<usize> = None;
+    let mut i = 0;
+    while i < MAXB {
+        if i < v.n && v.b[i] == c {
+            if first.is_none() {
+                first = Some(i);
+            }
+            last = Some(i);
+        }
+        i += 1;
+    }
+    assert!(s.find(&[c]) == first, "c19: find differs from the model");
+    assert!(s.rfind(&[c]) == last, "c19: rfind differs from the model");
+    kani::cover!(first.is_some() && first != last, "needle occurs twice");
+    canaries();
+});
+
+/// FilePath::from_path_and_file / file_name() / path() round trip: the file component of the
+/// composed path is the given file name and never escapes into the directory part
+proof!(10, fn c19_file_path_compose() {
+    let p = Bytes::any(3);
+    let f = Bytes::any(2);
+    let path = match Path::new(p.s()) {
+        Ok(s) => s,
+        Err(_) => return,
+    };
+    let file = match FileName::new(f.s()) {
+        Ok(s) => s,
+        Err(_) => return,
+    };
+    let fp = FilePath::from_path_and_file(&path, &file).unwrap();
+    let mut m = p;
+    if m.n > 0 && m.b[m.n - 1] != b'/' {
+        m.insert(m.n, b'/');
+    }
+    assert!(fp.len() == m.n + f.n);
+    let got = fp.as_bytes();
+    let mut i = 0;
+    while i < MAXB {
+        if i < m.n {
+            assert!(got[i] == m.b[i], "c19: directory part of the composed path changed");
+        }
+        if i < f.n {
+            assert!(got[m.n + i] == f.b[i], "c19: file part of the composed path changed");
+        }
+        i += 1;
+    }
+    let back = fp.file_name();
+    assert!(f.eq_slice(back.as_bytes()), "c19: file_name() of the composed path is not the file name");
+    // the composed value is itself an acceptable FilePath
+    assert!(FilePath::new(got).is_ok(), "c19: composed file path is not a valid FilePath");
+    kani::cover!(p.n == 3 && f.n == 2, "longest composition");
+    canaries();
+});
